@@ -24,17 +24,25 @@ for pid in props:
         replay_cmd_template="/venv/bin/python check.py %s --replay {path}" % pid,
         engine="hypothesis-pbt",
         level_claimed=dict(category="exploration", text=c["text"], design_ref=c["ref"]),
-        level_note=c["note"], technique=c["technique"]))
+        level_note=c["note"],
+        technique=c["technique"] + ("; coverage-guided fuzzing (atheris / libFuzzer through Hypothesis' fuzz_one_input) of the same property bodies"
+                                    if pid in ("C07", "C08", "C09", "C15", "C17", "C18") else "")))
 man = dict(
     version=1,
-    setup_cmd="/venv/bin/python -c 'import hypothesis' 2>/dev/null || /venv/bin/pip install --no-index --find-links /opt/veriftools/wheels hypothesis",
+    setup_cmd="(/venv/bin/python -c 'import hypothesis' 2>/dev/null || /venv/bin/pip install --no-index --find-links /opt/veriftools/wheels hypothesis) && "
+              "(PYTHONPATH=/verif/.deps /venv/bin/python -c 'import atheris' 2>/dev/null || /venv/bin/pip install -q --no-index --find-links /opt/veriftools/wheels --target /verif/.deps atheris || true)",
     hooks=dict(guard="ALLFED_INTEGRATED_MODEL_VERIF",
                enable="no source hooks: every observation point is reached by wrapping public methods from the harness process (vlib/model.py); the guard name is reserved and unused",
                baseline_off_cmd="cd /repo && /venv/bin/python -m pytest -ra -q -p no:cacheprovider --timeout=900 --continue-on-collection-errors",
                source_commits=[], add_only=True),
     engines=[dict(name="hypothesis-pbt", path="/verif/check.py", serves_properties=[c["property_id"] for c in checks],
                   kind_free_text="Hypothesis 6.168 property-based testing (flat and stateful), 16 fork-sharded workers, explicit oracles "
-                                 "(independent references, differential HiGHS LP, metamorphic laws, ledger audits); every check runs on a scratch copy of /repo's working tree")],
+                                 "(independent references, differential HiGHS LP, metamorphic laws, ledger audits); every check runs on a scratch copy of /repo's working tree"),
+             dict(name="atheris-coverage-guided", path="/verif/vlib/fuzz.py", serves_properties=["C07", "C08", "C09", "C15", "C17", "C18"],
+                  kind_free_text="atheris 3.1 / libFuzzer drives the same property bodies through Hypothesis' fuzz_one_input, guided by branch coverage of the "
+                                 "model's modules only (fresh interpreter per worker, fixed -seed/-runs, long-buffer starting corpus); part of check.py "
+                                 "(small in the quick tier, 4e4..2e5 executions per target in the thorough tier); skipped with a note in the evidence if atheris "
+                                 "cannot be installed from the offline wheelhouse into /verif/.deps")],
     checks=checks,
     notes="All checks: `check.py <ID> --tier quick|thorough`; exit 0 held / 1 VIOLATION / 2 harness error. VERIF_SEED selects the Hypothesis seed (seed*1000+shard). "
           "Known findings: /verif/known_findings.json (committed, read-only at run time). Seeded mutants: /verif/seeded/.",
